@@ -15,7 +15,7 @@
       receiver's address first and the arguments in declared order, returning the callee's result. *)
 From Coq Require Import List NArith ZArith Bool String Lia.
 From PyxisModel Require Import Base Grammar SemTypes Registry Sem SemLemmas FunctionLemmas
-     VftableLemmas PlacementLemmas RustExec ExecLemmas.
+     VftableLemmas PlacementLemmas RustExec ExecLemmas WholeBuild.
 Import ListNotations.
 Local Open Scope N_scope.
 
@@ -104,3 +104,27 @@ Example C04_plan_example :
   slot_plan [None; Some 3; None; Some 5] 0 = Some ([0; 3; 4; 5], 6) /\
   slot_plan [Some 2; Some 1] 0 = None /\ slot_plan [None; Some 0] 0 = None.
 Proof. repeat split. Qed.
+
+(** ** End to end.  For every accepted build (any schedule) whose input is [collision_free], every
+    type that declares a vftable block: the item registered under <T>Vftable in the FINAL registry is
+    the struct built from exactly the slot list [fs] that the conversion of the block produced
+    ([C04_slots] and [C04_table_size] describe [fs]; [C04_slot_offset] the struct), and the type's
+    own vftable descriptor names that struct and carries the same list.  The item is final from the
+    moment its owner is resolved: no later attempt touches it. *)
+Theorem C04_whole_build : forall order ptr mods st0 st p it0 gd td0 it r s rest gfs,
+  input_state ptr mods = Ok st0 -> collision_free (st_reg st0) ->
+  pyxis_resolve order ptr mods = BOk st ->
+  reg_get (st_reg st0) p = Some it0 -> it_state it0 = Unresolved gd -> gi_inner gd = GIType td0 ->
+  reg_get (st_reg st) p = Some it -> it_state it = Resolved r ->
+  gt_stmts td0 = s :: rest -> gs_field s = GVftable gfs ->
+  exists R_mid scope sz fs vp vit td vt,
+    ext (st_reg st0) (st_reg st0) R_mid /\ ext (st_reg st0) R_mid (st_reg st) /\
+    foldM scan_vftable_size_attr (gs_attrs s) None = Ok sz /\
+    convert_functions R_mid scope sz gfs = Ok fs /\
+    vftable_path p = Some vp /\
+    vftable_item (st_reg st) p (gi_vis gd) fs = Some vit /\
+    reg_get (st_reg st) vp = Some vit /\
+    rs_inner r = IType td /\ td_vftable td = Some vt /\
+    vt_functions vt = fs /\ vt_type vt = TConstPtr (TRaw vp).
+Proof. exact whole_build_vftable. Qed.
+Print Assumptions C04_whole_build.
